@@ -4,7 +4,7 @@ from core import Case, enc_b, enc_s
 from props.cardutil import tdes, corpus, digits, rb
 
 OBLIGATIONS = ["Psec.Props.C09.cvv_eq_spec", "Psec.Props.C09.cvv_three_digits"]
-TABLE_OBLIGATIONS = ["Psec.Tables.cvv_translate_agree", "Psec.Tables.decimalize_by_table", "Psec.Tables.ascii_n_agree"]   # model = tables regenerated from the source (harness/tables.py)
+TABLE_OBLIGATIONS = ["Psec.Tables.cvv_translate_agree", "Psec.Tables.cvv_decimalize_by_table", "Psec.Tables.ascii_n_agree"]   # model = tables regenerated from the source (harness/tables.py)
 TRUSTED_BASE = ["Lean 4.33 kernel", "Spec/CardVerif.lean is my reading of the Visa CVV / Mastercard CVC algorithm", "correspondence harness and compiled driver"]
 RULE = ("corpus of inputs whose final block has 0/1/2 decimal nibbles first (second decimalisation pass), then a seeded search for more of them, "
         "then random CVKs x PAN lengths 0..19 x expiry x service code; non-trivial = accepted input; distinct = distinct driver lines")
